@@ -17,7 +17,11 @@ BAD_LINE = [b"GET /x", b"GET", b"", b"GET /x HTTP/1.2", b"GET /x http/1.1", b"GE
             b"GET /x HTTP/1.01", b"GET /x HTTP/01.1", b"GET /x HTTP/+1.1", b"GET /x HTTP/1.+1", b"GET /x HTTP/2.00", b"GET /x HTTP/1.1.1",
             b"GET /x HTTP/ 1.1", b"GET /x HTTP/1,1", b"GET /x HTTP/-1.1", b"GET /x HTTPS/1.1",
             b"GET HTTP/1.1", b"POST HTTP/1.0", b" HTTP/1.1", b"GET /a b HTTP/1.1", b"HTTP/1.1"]
-NO_COLON = [b"NoColonHere", b"Host example.com", b"X-A=1", b"novalue"]
+NO_COLON = [b"NoColonHere", b"Host example.com", b"X-A=1", b"novalue",
+            # a line without a colon is no header field wherever it starts (there is no line folding)
+            b" no-colon-here", b"\tfolded value", b"  two blanks then text"]
+# an empty line where a request line is expected, followed by what would be a valid request
+EMPTY_LINE = [b"\r\n", b"\r\n\r\n"]
 NON_ASCII_LINE = [b"G\xc3\xa9T /x HTTP/1.1", b"GET /\xff HTTP/1.1", b"GET /x HTTP/1.1\x80"]
 NON_ASCII_HDR = [b"X-A: caf\xc3\xa9", b"X-\xe9: 1", b"\x80: 1"]
 BAD_EXPECT = [b"bogus", b"100-continue, other", b"200-ok", b"100continue", b"", b"100-continue;x"]
@@ -28,6 +32,8 @@ def offending(cls, v, tag):
     t = ("/bad%s" % tag).encode()
     if cls == "line":
         return v + b"\r\nHost: h\r\n\r\n"
+    if cls == "emptyline":
+        return v
     if cls == "nocolon":
         return b"GET " + t + b" HTTP/1.1\r\nHost: h\r\n" + v + b"\r\nX-After: 1\r\n\r\n"
     if cls == "nonascii-line":
@@ -63,7 +69,7 @@ def offending(cls, v, tag):
     raise ValueError(cls)
 
 
-CLASSES = [("line", BAD_LINE, 400), ("nocolon", NO_COLON, 400), ("nonascii-line", NON_ASCII_LINE, None),
+CLASSES = [("line", BAD_LINE, 400), ("emptyline", EMPTY_LINE, 400), ("nocolon", NO_COLON, 400), ("nonascii-line", NON_ASCII_LINE, None),
            ("nonascii-hdr", NON_ASCII_HDR, None), ("expect", BAD_EXPECT, 417), ("expect-upgrade", BAD_EXPECT[:4], 417), ("expect-chunked", BAD_EXPECT[:3], 417),
            ("expect-nobody", [b"bogus", b"200-ok", b"100-continue, other", b"100continue"], 417), ("version", HIGH_VER, 505),
            ("version-body", [b"HTTP/2.0|cl5", b"HTTP/2.0|cl37", b"HTTP/3.0|cl1024", b"HTTP/2.0|cl1025", b"HTTP/3.0|cl3000", b"HTTP/2.0|chunked"], 505)]
